@@ -261,7 +261,10 @@ impl Debugger {
                 }
 
                 Status::Finish => {
-                    if instr == Some(SignificantInstr::Return) {
+                    // Do not re-use `instr` from above: a command may have changed PC since
+                    if SignificantInstr::try_from(state.mem(state.pc()))
+                        == Ok(SignificantInstr::Return)
+                    {
                         dprintln!(
                             Alternate,
                             Warning,
